@@ -73,10 +73,13 @@ MYTH_CTX_CALLBACK void myth_block_on_queue_cb(void *arg1,void *arg2,void *arg3) 
      after it enters the queue and access
      cur data structure before the context
      has been saved  */
+  MYTH_VERIF_EVENT("cb.enter", cur, 0);
+  MYTH_VERIF_POINT("blockq.enq", q, cur);
   myth_sleep_queue_enq_th(q, cur);
   if (m) {
     myth_mutex_unlock_body(m);
   }
+  MYTH_VERIF_EVENT("cb.leave", cur, 0);
 }
 
 /* block the current thread on sleep_queue q */
@@ -120,10 +123,12 @@ MYTH_CTX_CALLBACK void myth_block_on_stack_cb(void *arg1,void *arg2,void *arg3) 
      after it enters the queue and access
      cur data structure before the context
      has been saved  */
+  MYTH_VERIF_EVENT("cb.enter", cur, 0);
   myth_sleep_stack_push_th(s, cur);
   if (m) {
     myth_mutex_unlock_body(m);
   }
+  MYTH_VERIF_EVENT("cb.leave", cur, 0);
 }
 
 
@@ -189,9 +194,11 @@ static inline int myth_wake_one_from_queue(myth_sleep_queue_t * q,
   myth_thread_t to_wake = 0;
   int failed = 0;
   while (1) {
+    MYTH_VERIF_POINT("wake1.deq", q, 0);
     to_wake = myth_sleep_queue_deq_th(q);
     if (to_wake) break;
     failed++;
+    MYTH_VERIF_SPIN("wake1.spin", q);
     empty_loop(100);
   }
   /* wake up this guy */
@@ -210,6 +217,7 @@ static inline int myth_wake_one_from_queue(myth_sleep_queue_t * q,
     callback(arg);
   }
   /* put the thread to wake up in run queue */
+  MYTH_VERIF_POINT("wake1.push", q, to_wake);
   myth_queue_push(&env->runnable_q, to_wake);
   return failed;
 }
@@ -261,7 +269,9 @@ static inline int myth_wake_many_from_queue(myth_sleep_queue_t * q,
   for (i = 0; i < n; i++) {
     myth_thread_t to_wake = 0;
     while (!to_wake) {
+      MYTH_VERIF_POINT("wakemany.deq", q, i);
       to_wake = myth_sleep_queue_deq_th(q);
+      if (!to_wake) MYTH_VERIF_SPIN("wakemany.spin", q);
     }
     to_wake->env = env;
     to_wake->next = 0;
@@ -290,6 +300,7 @@ static inline int myth_wake_many_from_queue(myth_sleep_queue_t * q,
   for (i = 0; i < n; i++) {
     assert(to_wake);
     myth_thread_t next = to_wake->next;
+    MYTH_VERIF_POINT("wakemany.push", q, to_wake);
     myth_queue_push(&env->runnable_q, to_wake);
     to_wake = next;
   }
@@ -303,6 +314,7 @@ static inline int myth_wake_if_any_from_queue(myth_sleep_queue_t * q,
 					      callback_on_wakeup_t callback,
 					      void * arg) {
   myth_running_env_t env = myth_get_current_env();
+  MYTH_VERIF_POINT("wakeany.deq", q, 0);
   myth_thread_t to_wake = myth_sleep_queue_deq_th(q);
   /* no threads sleeping, done */
   if (!to_wake) return 0;	/* I did not wake up any */
@@ -312,6 +324,7 @@ static inline int myth_wake_if_any_from_queue(myth_sleep_queue_t * q,
     callback(arg);
   }
   /* put the thread that just woke up to the run queue */
+  MYTH_VERIF_POINT("wakeany.push", q, to_wake);
   myth_queue_push(&env->runnable_q, to_wake);
   return 1;			/* I woke up one */
 }
@@ -376,6 +389,7 @@ static inline int myth_wake_many_from_stack(myth_sleep_stack_t * s,
     myth_thread_t to_wake = 0;
     while (!to_wake) {
       to_wake = myth_sleep_stack_pop_th(s);
+      if (!to_wake) MYTH_VERIF_SPIN("wakemanys.spin", s);
     }
     to_wake->env = env;
     to_wake->next = 0;
@@ -404,6 +418,7 @@ static inline int myth_wake_many_from_stack(myth_sleep_stack_t * s,
   for (i = 0; i < n; i++) {
     assert(to_wake);
     myth_thread_t next = to_wake->next;
+    MYTH_VERIF_POINT("wakemanys.push", s, to_wake);
     myth_queue_push(&env->runnable_q, to_wake);
     to_wake = next;
   }
@@ -419,9 +434,12 @@ static inline int myth_once_try_set(myth_once_t * once_control,
 
 static inline int myth_once_wait_until(myth_once_t * once_control,
 				       int state) {
+  MYTH_VERIF_POINT("once.wait.read", once_control, 0);
   int s = once_control->state;
   while (s != state) {
+    MYTH_VERIF_SPIN("once.wait.spin", once_control);
     myth_yield();
+    MYTH_VERIF_POINT("once.wait.read", once_control, 0);
     s = once_control->state;
   }
   return 0;
@@ -429,11 +447,14 @@ static inline int myth_once_wait_until(myth_once_t * once_control,
 
 static inline int
 myth_once_body(myth_once_t * once_control, void (*init_routine)(void)) {
+  MYTH_VERIF_POINT("once.read", once_control, 0);
   int s = once_control->state;
   if (s == myth_once_state_init) {
+   MYTH_VERIF_POINT("once.cas", once_control, 0);
    if (myth_once_try_set(once_control, myth_once_state_init,
 			 myth_once_state_in_progress)) {
      init_routine();
+     MYTH_VERIF_POINT("once.done", once_control, 0);
      once_control->state = myth_once_state_completed;
      return 0;
    }
@@ -471,12 +492,14 @@ static inline int myth_mutex_destroy_body(myth_mutex_t * mutex)
 static inline int myth_mutex_trylock_body(myth_mutex_t * mutex) {
   /* TODO: spin block */
   while (1) {
+    MYTH_VERIF_POINT("mutex.try.read", mutex, 0);
     long s = mutex->state;
     /* check the lock bit */
     if (s & 1) {
       /* lock bit set. do nothing and go home */
       return EBUSY;
-    } else if (__sync_bool_compare_and_swap(&mutex->state, s, s + 1)) {
+    } else if (MYTH_VERIF_POINT_E("mutex.try.cas", mutex, s)
+	       __sync_bool_compare_and_swap(&mutex->state, s, s + 1)) {
       /* I set the lock bit */
       return 0;
     } else {
@@ -521,11 +544,13 @@ static inline int myth_mutex_lock_body(myth_mutex_t * mutex) {
   /* TODO: spin block */
   int failed = 0;
   while (1) {
+    MYTH_VERIF_POINT("mutex.lock.read", mutex, 0);
     long s = mutex->state;
     assert(s >= 0);
     /* check lock bit */
     if ((s & 1) == 0) {
       /* lock bit clear -> try to become the one who set it */
+      MYTH_VERIF_POINT("mutex.lock.cas1", mutex, s);
       if (__sync_bool_compare_and_swap(&mutex->state, s, s + 1)) {
 	break;
       } else {
@@ -537,6 +562,7 @@ static inline int myth_mutex_lock_body(myth_mutex_t * mutex) {
     } else {
       /* lock bit set. indicate I am going to block on it.
 	 I am competing with a thread who is trying to unlock it */
+      MYTH_VERIF_POINT("mutex.lock.cas2", mutex, s);
       if (__sync_bool_compare_and_swap(&mutex->state, s, s + 2)) {
 	/* OK, I reserved a seat in the queue. even if the mutex is
 	   unlocked by another thread right after the above cas, 
@@ -582,6 +608,7 @@ myth_mutex_timedlock_body(myth_mutex_t * mutex,
 static void * myth_mutex_clear_lock_bit(void * mutex_) {
   myth_mutex_t * mutex = mutex_;
   assert(mutex->state & 1);
+  MYTH_VERIF_POINT("mutex.clearbit", mutex, 0);
   __sync_fetch_and_sub(&mutex->state, 1);
   return 0;
 }
@@ -590,6 +617,7 @@ static void * myth_mutex_clear_lock_bit(void * mutex_) {
 static inline int myth_mutex_unlock_body(myth_mutex_t * mutex) {
   int failed = 0;
   while (1) {
+    MYTH_VERIF_POINT("mutex.unlock.read", mutex, 0);
     long s = mutex->state;
     /* the mutex must be locked now (by me). 
        TODO: a better diagnosis message */
@@ -605,6 +633,7 @@ static inline int myth_mutex_unlock_body(myth_mutex_t * mutex) {
       /* some threads are blocked (or just have decided to block) 
 	 on the queue. decrement it (while still keeping the lock bit)
 	 wake up one, and then clear the lock bit */
+      MYTH_VERIF_POINT("mutex.unlock.cas2", mutex, s);
       if (__sync_bool_compare_and_swap(&mutex->state, s, s - 2)) {
 	failed += myth_wake_one_from_queue(mutex->sleep_q, 
                                            myth_mutex_clear_lock_bit, mutex);
@@ -615,6 +644,7 @@ static inline int myth_mutex_unlock_body(myth_mutex_t * mutex) {
     } else {
       /* nobody waiting. clear the lock bit and done */
       assert(s == 1);
+      MYTH_VERIF_POINT("mutex.unlock.cas1", mutex, s);
       if (__sync_bool_compare_and_swap(&mutex->state, 1, 0)) {
 	break;
       } else {
@@ -851,6 +881,7 @@ static inline int myth_barrier_destroy_body(myth_barrier_t * barrier) {
 
 static inline int myth_barrier_wait_body(myth_barrier_t * barrier) {
   while (1) {
+    MYTH_VERIF_POINT("barrier.read", barrier, 0);
     long c = barrier->state;
     if (c >= barrier->n_threads) {
       /* TODO: set errno and return */
@@ -859,12 +890,14 @@ static inline int myth_barrier_wait_body(myth_barrier_t * barrier) {
 	      barrier->n_threads);
       exit(1);
     }
+    MYTH_VERIF_POINT("barrier.cas", barrier, c);
     if (! __sync_bool_compare_and_swap(&barrier->state, c, c + 1)) {
       continue;
     }
     if (c == barrier->n_threads - 1) {
       /* I am the last one. wake up all guys.
 	 TODO: spin block */
+      MYTH_VERIF_POINT("barrier.reset", barrier, c);
       barrier->state = 0;	/* reset state */
       //myth_wake_many_from_queue(barrier->sleep_q, 0, 0, c);
       myth_wake_many_from_stack(barrier->sleep_s, 0, 0, c);
@@ -928,12 +961,14 @@ myth_join_counter_init_body(myth_join_counter_t * jc,
 
 static inline int myth_join_counter_wait_body(myth_join_counter_t * jc) {
   while (1) {
+    MYTH_VERIF_POINT("jc.wait.read", jc, 0);
     long s = jc->state;
     if ((s & jc->state_mask) == jc->n_threads) {
       return 0;
     }
     /* try to indicate I am going to sleep. */
     long new_s = s + (1L << jc->n_threads_bits);
+    MYTH_VERIF_POINT("jc.wait.cas", jc, s);
     if (! __sync_bool_compare_and_swap(&jc->state, s, new_s)) {
       /* another thread may have just decrement it, so I may
 	 have to keep going */
@@ -946,6 +981,7 @@ static inline int myth_join_counter_wait_body(myth_join_counter_t * jc) {
 
 static inline int myth_join_counter_dec_body(myth_join_counter_t * jc) {
   while (1) {
+    MYTH_VERIF_POINT("jc.dec.read", jc, 0);
     long s = jc->state;
     long n_decs = s & jc->state_mask;
     if (n_decs >= jc->n_threads) {
@@ -956,6 +992,7 @@ static inline int myth_join_counter_dec_body(myth_join_counter_t * jc) {
       exit(1);
     }
     assert(((s + 1) & jc->state_mask) == (n_decs + 1));
+    MYTH_VERIF_POINT("jc.dec.cas", jc, s);
     if (!__sync_bool_compare_and_swap(&jc->state, s, s + 1)) {
       continue;
     }
@@ -1014,14 +1051,17 @@ static inline int myth_felock_unlock_body(myth_felock_t * fe) {
 static inline int myth_felock_wait_and_lock_body(myth_felock_t * fe, 
 						 int status_to_wait) {
   myth_mutex_lock_body(fe->mutex);
+  MYTH_VERIF_POINT("fe.status.read", fe, status_to_wait);
   while (fe->status != status_to_wait) {
     myth_cond_wait(&fe->cond[status_to_wait], fe->mutex);
+    MYTH_VERIF_POINT("fe.status.read", fe, status_to_wait);
   }
   return 0;
 }
 
 static inline int myth_felock_mark_and_signal_body(myth_felock_t * fe,
 						   int status_to_signal) {
+  MYTH_VERIF_POINT("fe.status.write", fe, status_to_signal);
   fe->status = status_to_signal;
   myth_cond_signal(&fe->cond[status_to_signal]);
   return myth_mutex_unlock_body(fe->mutex);
@@ -1058,7 +1098,10 @@ MYTH_CTX_CALLBACK
 void myth_uncond_wait_cb(void *arg1,void *arg2,void *arg3) {
   myth_uncond_t * u = arg1;
   myth_thread_t cur = arg2;
+  MYTH_VERIF_EVENT("cb.enter", cur, 0);
+  MYTH_VERIF_POINT("uncond.publish", u, cur);
   u->th = cur;
+  MYTH_VERIF_EVENT("cb.leave", cur, 0);
 }
 
 static inline int myth_uncond_wait_body(myth_uncond_t * u) {
@@ -1087,12 +1130,17 @@ static inline int myth_uncond_wait_body(myth_uncond_t * u) {
 
 static inline int myth_uncond_signal_body(myth_uncond_t * u) {
   myth_running_env_t env = myth_get_current_env();
+  MYTH_VERIF_POINT("uncond.sig.read", u, 0);
   myth_thread_t to_wake = u->th;
   while (!to_wake) {
+    MYTH_VERIF_SPIN("uncond.sig.spin", u);
+    MYTH_VERIF_POINT("uncond.sig.read", u, 0);
     to_wake = u->th;
   }
   to_wake->env = env;
+  MYTH_VERIF_POINT("uncond.sig.clear", u, to_wake);
   u->th = 0;
+  MYTH_VERIF_POINT("uncond.sig.push", u, to_wake);
   myth_queue_push(&env->runnable_q, to_wake);
   return 0;
 }
